@@ -47,6 +47,13 @@ Timed LTS (every run, every configuration unless said otherwise):
                                     frames: `runT` never stops, delivers exactly the reference messages, and the stream
                                     ends at a message boundary
 * `slow_trickle_dropped`            witness for the observation above: gaps of 700 ms, payload read 2.1 s: dropped
+Tie to the source:
+* `repaired_is_the_source_layout`   `Net.cfgOfSites Gen.deadlineSites = some Net.repaired`: the ordered list of deadline
+                                    call sites regenerated from connecttopanel.go on every run (function, position in
+                                    the loop structure, read-only or both, zero time or now + constant) is the
+                                    configuration the theorems call "the code as it is" (`source_layout_is_coded`)
+* `constants_are_those_of_the_property_text`   the regenerated in-frame deadline, frame limit and probe deadline are
+                                    the 2000 ms / 500000 / 2000 ms the monitors take from the property text
 ASCII:
 * `lines_model`                     deliveries = `TrimSpace(line + LF)` per LF-terminated line (all streams)
 * `lines_eq_reference`              = the reference lines, for streams whose lines have no non-ASCII white space at an
@@ -352,7 +359,33 @@ theorem ascii_reset_needed_counterexample :
     runA (AState.start repaired 0 10) [(2490, .bytes [112, 10])] ({}, []) = ({}, [[112]]) := by
   refine ⟨by decide, by decide⟩
 
+/-! ### the tie to the source: where the deadline calls are, and the numbers of the property text -/
+
+/-- **the configuration the theorems call "the code as it is" is the layout of the source**: the ordered list of
+`Set…Deadline` call sites the extractor finds in `ConnectToPanel` on this run (function, position in the loop structure,
+`SetReadDeadline` / `SetDeadline`, zero time / now + constant) is exactly `repaired` — five calls, read-only, the probe
+reset under no condition, the loop-top reset first in the binary loop, 2000 ms for header rest and payload.  A change
+that drops, moves, adds or rewrites one of them (seeded changes C08-1, C08-4, C08-7; the pinned tree before 7e5ba25)
+makes this fail. -/
+theorem repaired_is_the_source_layout : cfgOfSites Gen.deadlineSites = some repaired := by decide
+
+/-- hence the theorems stated for `Coded` configurations speak about the source -/
+theorem source_layout_is_coded : ∃ cfg, cfgOfSites Gen.deadlineSites = some cfg ∧ Coded cfg :=
+  ⟨repaired, repaired_is_the_source_layout, coded_repaired⟩
+
+/-- the constants regenerated from the source are the numbers of the property text the monitors use ("the 2 s in-frame
+timeout", "the 500000-byte limit") -/
+theorem constants_are_those_of_the_property_text :
+    frameTimeout = Spec.Net.frameTimeoutMs ∧ limit = Spec.Net.frameLimit ∧ probeTimeout = Spec.Net.probeWindowMs := by decide
+
 /-! non-vacuity -/
+-- `cfgOfSites` tells layouts apart: without the loop-top reset, with the probe reset under a condition (C08-4), with a
+-- non-constant argument, the result is another configuration or none
+example : cfgOfSites (exampleSites.eraseIdx 2) = some { repaired with loopTop := .skip } := by decide
+example : cfgOfSites (exampleSites.eraseIdx 3) = some pinned := by decide
+example : cfgOfSites [{ fn := 0, clear := false, addMs := some 2000, loops := 1, path := [0], first := false, reads := 0 },
+    { fn := 0, clear := true, addMs := none, loops := 1, path := [0, 1], first := false, reads := 1 }] = none := by decide
+example : cfgOfSites [{ fn := 0, clear := false, addMs := none, loops := 1, path := [0], first := false, reads := 0 }] = none := by decide
 example : deliveries (feedAll .init [[2, 0], [0, 0, 8], [1, 0, 0, 0, 0, 1, 0, 0], [0, 7]]).2 = [[8, 1], [], [7]] := by decide
 example : Reachable repaired (CState.start repaired 0 5) := ⟨0, [.enter 5], [], by decide⟩
 example : (runL repaired (CState.probed repaired 0) [.enter 5, .arrive 5 1, .arrive 5 0, .arrive 5 0, .arrive 6 0,
